@@ -3,7 +3,7 @@
    Model: Model/Consumer.v (afkak/consumer.py:290-1131).  Never weaken a statement here. *)
 From AV Require Import Base.Util Model.Consumer Proofs.ConsumerBase Proofs.ConsumerFrame Proofs.ConsumerC13
   Proofs.ConsumerStop Proofs.ConsumerStopOk Proofs.ConsumerC13Top Proofs.ConsumerInv Proofs.ConsumerShut Proofs.ConsumerRun
-  Proofs.ConsumerFuel.
+  Proofs.ConsumerFuel Proofs.ConsumerShutFlags.
 Open Scope Z_scope.
 
 (* In EVERY state in which stop() can be called (not already inside stop(), not inside the auto-commit timer callback
@@ -66,6 +66,39 @@ Theorem C13_restartable : forall fuel s off s' o,
   (c_group (s_cf s) && c_acs (s_cf s) = true -> s_looper s' = Some true /\ In (OSched T_LOOPER (-1)) o).
 Proof. exact restartable. Qed.
 Print Assumptions C13_restartable.
+
+(* ... and delivers again: when the shutdown bookkeeping is clear (_shuttingdown False), start(off) sends the fetch for off,
+   and the reply to it, if it carries a message at or after off, is handed to the processor *)
+Theorem C13_restart_delivers : forall fuel s off s1 o1 offs s2 o2 m ms fo,
+  quiescent s = true -> s_shutting s = false -> 0 <= off ->
+  step fuel s (EStart off) = (s1, o1) -> extract off offs = (m :: ms, fo) ->
+  step fuel s1 (EFetchOk offs false) = (s2, o2) -> fuel_ok o2 = true ->
+  In (OFetch off (s_buf s)) o1 /\ exists blk, In (OCallProc blk) o2.
+Proof. exact delivers_again. Qed.
+Print Assumptions C13_restart_delivers.
+
+(* a stop() that returns clears the shutdown bookkeeping (_shuttingdown, _shutdown_d) of a graceful shutdown it interrupts,
+   in EVERY state where that bookkeeping is consistent: a pending shutdown Deferred has its continuation registered (on the
+   processor Deferred or among the commit waiters) and _shuttingdown is not set without it.  _partial: that every
+   reachable state is consistent in this sense is not proved (it is item 5 of Model/Consumer.v `invs`, evaluated by the
+   harness on every state of every run). *)
+Theorem C13_stop_clears_shutdown_partial : forall fuel s s' o,
+  run fuel KStop s = (Ok tt, s', o) -> fuel_ok o = true -> s_stopping s = false ->
+  (s_shutd s = true -> has_cont s = true) -> (s_shutting s = true -> s_shutd s = true) ->
+  s_shutting s' = false /\ s_shutd s' = false.
+Proof. exact stop_clears. Qed.
+Print Assumptions C13_stop_clears_shutdown_partial.
+
+(* graceful shutdown waits for the processing in progress: shutdown() while a processor result is awaited cancels, sends
+   and reports nothing; the processor result stays awaited and now carries shutdown's continuation (run when it arrives:
+   body KFireProc); no request, commit or waiter is touched *)
+Theorem C13_shutdown_waits : forall fuel s s' o l rs c,
+  s_proc s = Some (l, rs, c) -> is_some (s_startd s) = true -> s_shutd s = false -> s_inapi s = 0 -> s_pend s = [] ->
+  step fuel s EShutdown = (s', o) ->
+  o = [ORet 0; OEnd (s_lp s) (s_lc s)] /\ s_proc s' = Some (l, rs, true) /\ s_shutting s' = true /\ s_shutd s' = true /\
+  s_req s' = s_req s /\ s_cds s' = s_cds s /\ s_creq s' = s_creq s /\ s_startd s' = s_startd s /\ s_mblock s' = s_mblock s.
+Proof. exact shutdown_waits. Qed.
+Print Assumptions C13_shutdown_waits.
 
 Theorem C13_stop_not_running : forall fuel s s' o, s_startd s = None -> step (S fuel) s EStop = (s', o) ->
   s' = s /\ o = [ORaised X_RESTOP; OEnd (s_lp s) (s_lc s)].
@@ -144,3 +177,11 @@ Proof. vm_compute. reflexivity. Qed.
 Example ex_restart : let (s', _) := step 60 ex_s EStop in
   flat_map (enc_out 7) (snd (step 60 s' (EStart 1))) = [22; 1; 4096; 25; 3; -1; 34; 0; 37; 0; -1000].
 Proof. vm_compute. reflexivity. Qed.
+(* shutdown() waiting for the processor, interrupted by stop(), then restarted: the flags are clear and it delivers *)
+Definition ex_evs2 := [EStart 0; EPlan 0 2; EFetchOk [0; 1] false; EShutdown; EStop].
+Definition ex_s2 := fst (run_events 60 (init ex_cfg 0 4096) ex_evs2).
+Example ex_interrupted_restart :
+  s_shutting ex_s2 = false /\ s_shutd ex_s2 = false /\ quiescent ex_s2 = true /\
+  flat_map (enc_out 7) (snd (run_events 60 ex_s2 [EStart 5; EFetchOk [5; 6] false]))
+  = [22; 5; 4096; 25; 3; -1; 34; 0; 37; -1000; -1000;  24; 1; 5; 25; 1; -1; 37; -1000; -1000].
+Proof. vm_compute. repeat split; reflexivity. Qed.
